@@ -218,12 +218,8 @@ func thoroughSelfTest(id string, rep *core.Report, repo, vdir string) {
 		if json.Unmarshal(b, &m) != nil {
 			continue
 		}
+		// only the property a variant was written for: collateral firings of other properties are not required
 		applies := m.Property == id
-		for _, f := range m.Fires {
-			if f == id {
-				applies = true
-			}
-		}
 		if !applies {
 			continue
 		}
